@@ -41,3 +41,27 @@ def match(prop, record):
         if _sig_match(k.get("signature", {}), record):
             return k["id"]
     return None
+
+
+# ---------------------------------------------------------------------------------------------
+# features of a (spec, schedule) pair that identify the call sites of the open findings; they are
+# put into the 'signature' of violation records so that an open finding tolerates only violations
+# that involve its own construct.
+# ---------------------------------------------------------------------------------------------
+def features(spec, sched=None):
+    f = {}
+    tasks = {t["name"]: t for t in spec.get("tasks", [])}
+    # KF-NCBUF: an optional task both unloads and loads one non-concurrent buffer
+    nc = {b["name"] for b in spec.get("buffers", []) if not b.get("concurrent")}
+    acc = {}
+    for c in spec.get("constraints", []):
+        if c["type"] in ("TaskUnloadBuffer", "TaskLoadBuffer") and c["buffer"] in nc:
+            acc.setdefault((c["task"], c["buffer"]), set()).add(c["type"])
+    both = [t for (t, b), kinds in acc.items() if len(kinds) == 2 and tasks[t]["optional"]]
+    if sched is not None:
+        both = [t for t in both if not sched["tasks"][t]["scheduled"]]
+    f["nc_buffer_load_and_unload_by_unscheduled_optional_task"] = bool(both)
+    # KF-CUMSEL: a selection lists a cumulative worker
+    cum = {c["name"] for c in spec.get("cumulative", [])}
+    f["select_lists_cumulative"] = any(set(s["workers"]) & cum for s in spec.get("selects", []))
+    return f
